@@ -5,7 +5,7 @@ p=$(realpath "$1"); shift
 d=$(mktemp -d /tmp/agv-wp-XXXXXX)
 mkdir -p $d/evid
 rsync -a --exclude target --exclude .git /repo/ $d/repo/
-( cd $d/repo && patch -p1 -s -i "$p" ) || { echo "patch does not apply"; rm -rf $d; exit 2; }
+( cd $d/repo && patch -p1 -s -f -i "$p" ) || { echo "patch does not apply"; rm -rf $d; exit 2; }
 AGV_REPO=$d/repo AGV_EVID=$d/evid "$@"
 rc=$?
 rm -rf $d
